@@ -163,3 +163,33 @@ pub open spec fn ctx_blocks_wf(ctx: ValidationContext) -> bool {
     forall|f: PathBuf, j: int| ctx.blocks@.contains_key(f) && 0 <= j < ctx.blocks@[f].blocks_with_context@.len()
         ==> block_wf((#[trigger] ctx.blocks@[f].blocks_with_context@[j]).block)
 }
+
+// ---- C02 frame: the modification flags are not an input of the line validators -----------------------------
+/// two file records that differ at most in the modification flags of their blocks
+pub open spec fn same_but_flags(fb1: FileBlocks, fb2: FileBlocks) -> bool {
+    &&& fb1.file_content@ == fb2.file_content@
+    &&& fb1.blocks_with_context@.len() == fb2.blocks_with_context@.len()
+    &&& forall|j: int| 0 <= j < fb1.blocks_with_context@.len() ==> (#[trigger] fb1.blocks_with_context@[j]).block == fb2.blocks_with_context@[j].block
+}
+
+/// step functions that agree below `n` accumulate the same lists
+pub proof fn lemma_acc_congruent(step1: spec_fn(int, Seq<Violation>, Seq<Violation>) -> bool,
+    step2: spec_fn(int, Seq<Violation>, Seq<Violation>) -> bool, n: int, l: Seq<Violation>)
+    requires forall|j: int, a: Seq<Violation>, b: Seq<Violation>| 0 <= j < n ==> #[trigger] step1(j, a, b) == step2(j, a, b),
+    ensures acc_ok(step1, n, l) == acc_ok(step2, n, l),
+    decreases n,
+{
+    if n > 0 {
+        assert forall|prev: Seq<Violation>| #[trigger] acc_ok(step1, n - 1, prev) == acc_ok(step2, n - 1, prev) by {
+            lemma_acc_congruent(step1, step2, n - 1, prev);
+        }
+        if acc_ok(step1, n, l) {
+            let prev = choose|prev: Seq<Violation>| acc_ok(step1, n - 1, prev) && #[trigger] step1(n - 1, prev, l);
+            assert(acc_ok(step2, n - 1, prev) && step2(n - 1, prev, l));
+        }
+        if acc_ok(step2, n, l) {
+            let prev = choose|prev: Seq<Violation>| acc_ok(step2, n - 1, prev) && #[trigger] step2(n - 1, prev, l);
+            assert(acc_ok(step1, n - 1, prev) && step1(n - 1, prev, l));
+        }
+    }
+}
